@@ -204,7 +204,26 @@ def _r2(ctx):
             ok = True
             # the weight that is incremented is the one handed to add_edge
             adds = [c for c in C.calls_to(loops[0], "add_edge")]
-            used = any(U(k.value) == U(b["M_w"]) for c in adds for k in c.keywords if k.arg == "latency")
+            cflow = C.flow_of(cd)
+            def carries(v):
+                """the edge's latency is the incremented weight, directly or through plain copies of it"""
+                if U(v) == U(b["M_w"]):
+                    return True
+                seen_, work = set(), [v]
+                while work:
+                    x = work.pop()
+                    if not isinstance(x, ast.Name) or x.id in seen_:
+                        continue
+                    seen_.add(x.id)
+                    if x.id == U(b["M_w"]):
+                        return True
+                    try:
+                        ds_ = cflow.reaching(x, x.id)
+                    except KeyError:
+                        ds_ = cflow.all_defs.get(x.id, [])
+                    work.extend(d_.value for d_ in ds_ if d_.kind == "assign" and isinstance(d_.value, ast.Name))
+                return False
+            used = any(carries(k.value) for c in adds for k in c.keywords if k.arg == "latency")
             ctx.check(used, "R2", "the incremented weight is the edge's latency", cd.where(n),
                       "the weight increased by the forwarding latency is not the `latency` attribute of the edge",
                       cd.qname, U(n))
@@ -270,9 +289,12 @@ def _r3_r4(ctx):
         good = False
         for b_ in [x for x in ast.walk(loop) if isinstance(x, ast.Break) and C.enclosing_loop(x) is loop]:
             nf = C.norm_fact_nodes(b_, stop=loop)
-            has_kind = any(pol and isinstance(e, ast.Attribute) and e.attr == kind for e, pol in nf)
+            is_kind = lambda e: (isinstance(e, ast.Attribute) and e.attr == kind) or (
+                isinstance(e, ast.BoolOp) and isinstance(e.op, ast.Or) and any(isinstance(v, ast.Attribute) and v.attr == kind for v in e.values)
+                and all(isinstance(v, ast.Attribute) and v.attr in ("pre_indexed", "post_indexed") for v in e.values))
+            has_kind = any(pol and is_kind(e) for e, pol in nf)
             has_wr = any(pol and C.is_call_to(e, "is_written") and e.args and U(e.args[0]).endswith(".base") for e, pol in nf)
-            others = [e for e, pol in nf if pol and not (isinstance(e, ast.Attribute) and e.attr == kind) and not C.is_call_to(e, "is_written")
+            others = [e for e, pol in nf if pol and not is_kind(e) and not C.is_call_to(e, "is_written")
                       and not C.is_call_to(e, "isinstance")]
             top = b_
             while C.parent(top) is not loop and C.parent(top) is not None:
@@ -454,6 +476,13 @@ def _r6(ctx):
             # ... and the iteration ends there (the register stays unknown: nothing is added afterwards)
             leaves = not C.cfg_of(f).reachable(x, adds[0][0], within=loop) if adds else False
             unk_src = unk_src or (under and leaves)
+    ctx.check(name_set, "R6", "rename records the source register's name", f.where(r),
+              "rename does not record the new name", f.qname, "rename name")
+    ctx.check(val_copy, "R6", "rename takes the source register's tracked value", f.where(r),
+              "rename does not start from the source register's tracked value (default 0)", f.qname, "rename value")
+    ctx.check(unk_src, "R6", "rename from an unknown source makes the register unknown", f.where(r),
+              "a rename from a register whose change is unknown does not make the target unknown", f.qname,
+              "rename unknown source")
     if adds:
         cfg = C.cfg_of(f)
         ctx.check(cfg.reachable(r, adds[0][0]) and adds[0][0].lineno > r.end_lineno, "R6",
